@@ -1601,12 +1601,29 @@ class Signature:
                     if isinstance(new_tv_maps, CanAssignError):
                         return new_tv_maps
                     tv_maps += new_tv_maps
-                    new_tv_maps = can_assign_var_keyword(
-                        my_param, kwargs_annotation, ctx
-                    )
-                    if isinstance(new_tv_maps, CanAssignError):
-                        return new_tv_maps
-                    tv_maps += new_tv_maps
+                    their_named = other.parameters.get(my_param.name)
+                    if (
+                        their_named is not None
+                        and their_named.kind is ParameterKind.KEYWORD_ONLY
+                    ):
+                        # Passed by keyword, the argument goes to their keyword-only
+                        # parameter of that name, not into **kwargs.
+                        tv_map = their_named.get_annotation().can_assign(
+                            my_annotation, ctx
+                        )
+                        if isinstance(tv_map, CanAssignError):
+                            return CanAssignError(
+                                f"type of parameter {my_param.name!r} is incompatible",
+                                [tv_map],
+                            )
+                        tv_maps.append(tv_map)
+                    else:
+                        new_tv_maps = can_assign_var_keyword(
+                            my_param, kwargs_annotation, ctx
+                        )
+                        if isinstance(new_tv_maps, CanAssignError):
+                            return new_tv_maps
+                        tv_maps += new_tv_maps
                 else:
                     return CanAssignError(
                         f"parameter {my_param.name!r} is not accepted"
